@@ -1117,9 +1117,8 @@ package stats
 //@   trusted restatement: only determinism and the frame are used (the contract is proved in model real)
 //@   ensures true
 //@   assigns nothing
-//@ assume func Sample.Copy@xreal
+//@ func Sample.Copy@xreal
 //@   model xreal
-//@   trusted restatement of the contract proved in model real
 //@   ensures result != nil && fresh(result) && fresh(result.Xs) && (!isnil(s.Weights) ==> fresh(result.Weights)) && same(result.Xs, s.Xs) && (isnil(s.Weights) ==> isnil(result.Weights)) && result.Sorted == s.Sorted
 //@   assigns nothing
 //@ assume func Sample.Sort@xreal
